@@ -89,6 +89,11 @@ def _map_block(blk, lo, bo, po):
             t["unwind"] += bo
 
 
+# modules that are primitives / infrastructure in their own right: never folded into a user
+PRIMITIVE_MODULES = ("argon2::", "blake2b::", "poly1305::", "sha512::", "siphash24::", "scalarmult_curve25519::", "utils::",
+                     "rng::", "error::", "types::", "protected::", "bytes_serde::")
+
+
 def default_pick(prog, root, keep=(), cross=None):
     """Inline crate-local non-public callees (private and pub(crate) free functions / inherent or
     trait methods) defined in the same source file as the root that resolve uniquely, except the ones
@@ -100,7 +105,7 @@ def default_pick(prog, root, keep=(), cross=None):
             # a helper that lives in another file is still this file's helper if nobody else uses it
             # (a private module split off the file); anything shared is a crate-internal API
             users = {h.file for h in prog.callers(g)} - {g.file}
-            if users != {root.file}:
+            if users != {root.file} or g.path.lstrip("<").startswith(PRIMITIVE_MODULES):
                 return False
         for k in keep:
             if callable(k):
@@ -414,8 +419,7 @@ def _resolve_closure_call(prog, t, locals_, blocks):
     return True
 
 
-VALUE_COMBINATORS = ("std::option::Option::<T>::unwrap_or", "std::result::Result::<T, E>::unwrap_or",
-                     "std::option::Option::<T>::map_or", "std::result::Result::<T, E>::map_or")
+VALUE_COMBINATORS = ("std::option::Option::<T>::unwrap_or", "std::result::Result::<T, E>::unwrap_or")
 
 
 def inline(prog, f, pick=None, keep=(), depth=MAX_DEPTH, cross=None, value_combinators=False):
